@@ -64,9 +64,11 @@ def run_case(case):
         sys.setrecursionlimit(10000)
         mod = importlib.import_module(case["module"])
         if hasattr(mod, "run_case"):
-            out.update(mod.run_case(case["params"]))
-            out["wall_s"] = round(time.time() - t0, 2)
-            return out
+            special = mod.run_case(case["params"])
+            if special is not None:
+                out.update(special)
+                out["wall_s"] = round(time.time() - t0, 2)
+                return out
         from . import stubs
         from .symx import explore
 
@@ -159,14 +161,16 @@ def run_pool(cases, jobs):
                 env = dict(os.environ)
                 env["PYTHONHASHSEED"] = str(c.get("hashseed", i % 7))
                 env["PYTHONDONTWRITEBYTECODE"] = "1"
+                flog = open(os.path.join(tmpd, "%d.log" % i), "w")
                 pr = subprocess.Popen(
                     [PY, "-m", "vp.run", "--worker", fin, fout],
                     cwd=VERIF,
                     env=env,
-                    stdout=subprocess.PIPE,
+                    stdout=flog,
                     stderr=subprocess.STDOUT,
                     text=True,
                 )
+                flog.close()
                 running[i] = (pr, c, fout, time.time())
             done = []
             for i, (pr, c, fout, t0) in running.items():
@@ -180,7 +184,11 @@ def run_pool(cases, jobs):
                     done.append(i)
                     yield r
                 elif rc is not None:
-                    outp = pr.stdout.read() if pr.stdout else ""
+                    try:
+                        with open(os.path.join(tmpd, "%d.log" % i), errors="replace") as fl:
+                            outp = fl.read()[-3000:]
+                    except OSError:
+                        outp = ""
                     if os.path.exists(fout):
                         with open(fout) as f:
                             r = json.load(f)
